@@ -11,6 +11,7 @@ ENVIRONMENT STUBS (part of every claim using the rig):
   * FakeStream (in-memory IOStream interface, writes complete immediately), VLoop/FakeAio virtual loop;
   * logging disabled (access/app/gen logs are not part of the properties);
   * time.time() as seen by tornado.web / tornado.httputil is a constant (Date header, request_time);
+  * datetime.datetime.now() as seen by tornado.web is a constant (cookie Expires dates);
   * request bytes are concrete, chosen from a pool by (symbolic) index.
 """
 import logging
@@ -45,6 +46,36 @@ import time as _time  # noqa: E402
 
 tornado.web.time = _FixedTime(_time)
 httputil.time = _FixedTime(_time)
+
+import datetime as _dt  # noqa: E402
+
+
+class _DatetimeClassProxy:
+    """`datetime.datetime` as seen by tornado.web: now() is a constant (CrossHair models the clock as
+    nondeterministic, which makes set_cookie(expires_days=) / clear_cookie() raise inside the engine);
+    everything else (construction, isinstance, fromtimestamp, ...) is the real class."""
+
+    def now(self, tz=None):
+        return _dt.datetime(2026, 9, 21, 14, 13, 20, tzinfo=tz)
+
+    def __call__(self, *a, **kw):
+        return _dt.datetime(*a, **kw)
+
+    def __instancecheck__(self, obj):
+        return isinstance(obj, _dt.datetime)
+
+    def __getattr__(self, k):
+        return getattr(_dt.datetime, k)
+
+
+class _FixedDatetimeModule:
+    datetime = _DatetimeClassProxy()
+
+    def __getattr__(self, k):
+        return getattr(_dt, k)
+
+
+tornado.web.datetime = _FixedDatetimeModule()
 
 BASE = b"abcdefghijklmnop"
 STATUS_POOL = (204, 304, 404, 200)   # index 0..2 = the non-default codes (default is 200)
